@@ -130,7 +130,7 @@ typedef enum coap_request_t {
 #define COAP_OPTION_CONTENT_TYPE COAP_OPTION_CONTENT_FORMAT
 /* COAP_OPTION_MAXAGE default 60 seconds if not set */
 #define COAP_OPTION_MAXAGE         14 /* _U-_E_U, uint,      0-4 B, RFC7252 */
-#define COAP_OPTION_URI_QUERY      15 /* CU-RE__, String,  1-255 B, RFC7252 */
+#define COAP_OPTION_URI_QUERY      15 /* CU-RE__, String,  0-255 B, RFC7252 */
 #define COAP_OPTION_HOP_LIMIT      16 /* ______U, uint,        1 B, RFC8768 */
 #define COAP_OPTION_ACCEPT         17 /* C___E__, uint,      0-2 B, RFC7252 */
 #define COAP_OPTION_Q_BLOCK1       19 /* CU__E_U, uint,      0-3 B, RFC9177 */
